@@ -198,6 +198,20 @@ def runtime_zoo():
     zoo.append((mk('GreedyEmpty', [('a', prophy.u8), ('g', prophy.array(Empty))]),
                 [lambda m: None, lambda m: m.g.add()]))
     zoo.append((mk('OnlyEmpty', [('e', Empty), ('t', prophy.u16)]), [lambda m: None]))
+    # one array / bytes type object used by two struct definitions (a plain Python "typedef") whose blocks behind it
+    # are aligned differently, the more aligned one defined first and defined last
+    fill = [lambda m: None, lambda m: (m.x.extend([5]), setattr(m, 'a', 0xAA), hasattr(m, 'b') and setattr(m, 'b', 0x01020304)),
+            lambda m: (m.x.extend([1, 2, 3, 4, 5]), setattr(m, 'a', 1))]
+    P1 = prophy.array(prophy.u8, bound='n')
+    zoo.append((mk('SharedHiFirst', [('n', prophy.u8), ('x', P1), ('a', prophy.u8), ('b', prophy.u32)]), fill))
+    zoo.append((mk('SharedLoLast', [('n', prophy.u8), ('x', P1), ('a', prophy.u8)]), fill))
+    P2 = prophy.array(prophy.u16, bound='n')
+    zoo.append((mk('SharedLoFirst', [('n', prophy.u8), ('x', P2), ('a', prophy.u16)]), fill))
+    zoo.append((mk('SharedHiLast', [('n', prophy.u8), ('x', P2), ('a', prophy.u8), ('b', prophy.u64)]), fill))
+    P3 = prophy.bytes(bound='n')
+    bfill = [lambda m: setattr(m, 'x', b''), lambda m: (setattr(m, 'x', b'abc'), setattr(m, 'a', 7))]
+    zoo.append((mk('SharedBytesHi', [('n', prophy.u8), ('x', P3), ('a', prophy.u8), ('b', prophy.u32)]), bfill))
+    zoo.append((mk('SharedBytesLo', [('n', prophy.u8), ('x', P3), ('a', prophy.u8)]), bfill))
     return zoo
 
 
@@ -265,6 +279,8 @@ def judge_runtime_zoo(job):
                 kind = label.split('@')[0].split('+')[0]
                 if o == 'BUDGET':
                     viol('runtime|budget|%s|%s' % (cls.__name__, kind), cls, data, e, label, 'decode exceeded %d Python calls' % budget)
+                elif o == 'ProphyError' and label == 'valid' and cls.__name__ != 'GreedyEmpty':
+                    viol('runtime|valid-rejected|%s' % cls.__name__, cls, data, e, label, 'decode refused what encode wrote')
                 elif o not in ('return', 'ProphyError'):
                     viol('runtime|raises|%s|%s|%s' % (o, cls.__name__, kind), cls, data, e, label, 'decode raised %s' % o)
                 elif o == 'return':
@@ -274,6 +290,8 @@ def judge_runtime_zoo(job):
                         viol('runtime|element-count-unbounded|%s' % cls.__name__, cls, data, e, label,
                              'decode of %d bytes returned an array of %d elements (bound %d)' % (len(data), big[0], ELEMENT_BOUND))
                         continue
+                    if label == 'valid' and msg.encode(e) != data:
+                        viol('runtime|valid-decodes-to-other|%s' % cls.__name__, cls, data, e, label, 're-encodes as %s' % msg.encode(e).hex())
                     if label == 'valid' and n != len(data):
                         viol('runtime|valid-not-consumed|%s' % cls.__name__, cls, data, e, label, 'returned %r' % n)
                     try:
@@ -342,7 +360,7 @@ def run(ctx):
                        'replaced by each of 13+ boundary values; every byte xor 01, xor 80, set FF) %s, plus all strings of '
                        'length <= %d over {00,01,02,03,FF} for %d small schemas. distinct_nontrivial = distinct corrupted '
                        'inputs that decode returned on (fixpoint checked). Outcome must be return or ProphyError within '
-                       '4x the Python-call count of the largest valid decode + 400. Seven hand-written descriptors '
+                       '4x the Python-call count of the largest valid decode + 400. Thirteen hand-written descriptors '
                        '(sizer shift, structs without members: not expressible in the IDL) get a layout-free menu: every prefix, '
                        'every 1/2/4-byte word at every offset x boundary values; besides the outcome and the fixpoint, no returned '
                        'array may exceed the runtime element bound of 65536.' % (
